@@ -29,7 +29,8 @@ class TlcResult:
         self.distinct = int(m.group(2)) if m else 0
         d = _DEPTH.search(stdout)
         self.depth = int(d.group(1)) if d else 0
-        self.violation = ("is violated" in stdout) or ("Error: Deadlock" in stdout)
+        self.violation = ("is violated" in stdout) or ("Error: Deadlock" in stdout) \
+            or ("is equal to FALSE" in stdout)
         self.error = rc not in (0,) and not self.violation
 
     def tuples(self, tag: str) -> list[list]:
